@@ -46,13 +46,48 @@ func rootChildBefore(m *mimetype.MIME, target string) bool {
 	return c18Higher[ch[len(ch)-2]]
 }
 
+// c18PrintableNameMayOutrank: for a member name made of printable ASCII only,
+// can the leading bytes of the archive satisfy the signature of one of the
+// formats that outrank tar? Written from the format specifications (the other
+// higher-priority signatures hold non-printable bytes and cannot be spelled).
+func c18PrintableNameMayOutrank(name []byte) bool {
+	has := func(off int, s string) bool { return len(name) >= off+len(s) && string(name[off:off+len(s)]) == s }
+	for _, p := range []string{"/* XPM */", "%PDF-", "%FDF", "%!PS-Adobe-", "8BPS", "-----BEGIN PKCS7", "GIF87a", "GIF89a", "MZ", "!<arch>", "OggS"} {
+		if has(0, p) {
+			return true
+		}
+	}
+	if has(0, "RIFF") && has(8, "WEBP") {
+		return true
+	}
+	if (has(4, "jP  ") || has(4, "jP2 ")) && (has(20, "jp2 ") || has(20, "jpx ") || has(20, "jpm ")) {
+		return true
+	}
+	return false
+}
+
 func c18PosEval(cs *core.Case) (bool, string, string) {
 	m := detect(cs.In, cs.Limit)
 	if bare(m.String()) == "application/x-tar" {
 		return true, "", ""
 	}
 	if rootChildBefore(m, "application/x-tar") {
-		return true, "exception", ""
+		// the exception is only granted to a printable member name if that name
+		// can really spell a higher-priority signature
+		name := cs.In[:100]
+		if i := bytes.IndexByte(name, 0); i >= 0 {
+			name = name[:i]
+		}
+		printable := len(name) > 0
+		for _, b := range name {
+			if b < 0x20 || b > 0x7e {
+				printable = false
+			}
+		}
+		if !printable || c18PrintableNameMayOutrank(name) {
+			return true, "exception", ""
+		}
+		return false, "C18/tar-claimed-by-unsatisfied-signature/" + cs.Strs[0], fmt.Sprintf("archive written by archive/tar (%s) limit %d is reported as %s, but its leading bytes (member name %q) do not satisfy that format's signature", cs.Strs[1], cs.Limit, chainStr(m), name)
 	}
 	return false, "C18/tar-not-recognised/" + cs.Strs[0], fmt.Sprintf("archive written by archive/tar (%s; first block %s) limit %d is reported as %s", cs.Strs[1], core.Quote(cs.In[:min2(len(cs.In), 160)]), cs.Limit, chainStr(m))
 }
@@ -282,7 +317,8 @@ func c18Run(c *core.Ctx) {
 			continue
 		}
 		for _, f := range formats {
-			for _, name := range []string{string(lit) + "-notes/a.txt", string(lit)} {
+			// the literal at name offsets 0, 4 and 8 (signatures are not all at offset 0)
+			for _, name := range []string{string(lit) + "-notes/a.txt", string(lit), "scan" + string(lit) + "/a.txt", "backup__" + string(lit) + "/a.txt"} {
 				if strings.HasSuffix(name, "/gpkg-1") {
 					continue // the documented exclusion
 				}
